@@ -1,11 +1,11 @@
 #!/bin/sh
-# tools/try_patch.sh <patch.diff> <property id> [tier]   -- apply a seeded change to /repo, run one check, undo it.
+# tools/try_patch.sh <patch.diff> <property id> [tier]
+# Applies a seeded change to a scratch copy of /repo (outside /repo and /verif), runs one check against it through
+# PB_SRC, removes the copy.  Equivalent to `git -C /repo apply` + check + `git -C /repo checkout -- .` but lets
+# several seeds be tried concurrently.  NOTE: overwrites evidence/<id>.json - rerun the check on /repo afterwards.
 P="$(readlink -f "$1")"; ID="$2"; TIER="${3:-quick}"
-cd /repo || exit 9
-if ! git diff --quiet; then echo "/repo has uncommitted changes"; exit 9; fi
-git apply "$P" || { echo "patch does not apply"; exit 9; }
-cd /verif && ./check "$ID" --tier "$TIER" 2>&1 | tail -${TAIL:-6}
-rc=$?
-git -C /repo checkout -- . 
-git -C /repo clean -fdq playback 2>/dev/null
-exit $rc
+S=$(mktemp -d /tmp/pbseed.XXXXXX)
+git -C /repo archive HEAD | tar -x -C "$S" || exit 9
+( cd "$S" && git init -q . && git apply "$P" ) || { echo "patch does not apply"; rm -rf "$S"; exit 9; }
+cd /verif && PB_SRC="$S" ./check "$ID" --tier "$TIER" 2>&1 | tail -${TAIL:-6}
+rm -rf "$S"
